@@ -29,6 +29,8 @@ type Std struct {
 	SEq *Type // struct with Equal+Compare methods implemented by derived functions (the idiom)
 	SCi *Type // struct with custom (case-insensitive) Equal/Compare methods
 	SCv *Type // same, but the methods have value receivers and value parameters
+	SCd *Type // struct{N int32} whose Compare method returns the difference of the N (any int, not just -1/0/+1); C13 only
+	SD  *Type // struct with an SCd field
 	SH  *Type // ==-comparable struct whose fields have the custom methods (the methods must still decide)
 	// imported
 	XE    *Type // imported struct, exported fields only
@@ -70,6 +72,9 @@ func NewStd(u *Universe) *Std {
 	s.SCi.EqualMethod, s.SCi.CompareMethod = "custom", "custom"
 	s.SCv = u.DeclareAs("", "SCv", StructOf(F("Word", B("string"))))
 	s.SCv.EqualMethod, s.SCv.CompareMethod = "customv", "customv"
+	s.SCd = u.DeclareAs("", "SCd", StructOf(F("N", B("int32"))))
+	s.SCd.CompareMethod = "customd"
+	s.SD = u.DeclareAs("", "SD", StructOf(F("At", s.SCd), F("V", B("int8"))))
 	s.SH = u.DeclareAs("", "SH", StructOf(F("N", B("int")), F("H", s.SCi), F("V", s.SCv), F("A", Array(2, s.SCi))))
 
 	s.XN = u.DeclareAs(ExtPlain, "Num", B("int32"))
